@@ -15,13 +15,18 @@
    bytes and the timestamp are "the rest of the entry" there (rbody): here they are two arbitrary
    functions rest_of / ts_of of the request.
 
-   Discharged (mechanism: dupCheckMap => the members of a batch have pairwise different primary keys):
+   Discharged (mechanism: dupCheckMap => the members of a batch have pairwise different primary keys;
+   DM.batch_cand = a batchable name and, for DEL, exactly one key):
      data_isolation  — SET / SETEX / single-key DEL / HMSET on different primary keys do not change each
                        other's outcome (reply and write batch), read clock, policy and timestamps arbitrary;
      data_no_abort   — a batchable command that passes isValidBatchableWrite (transcribed: valid_batchable)
                        never fails in the Map model, so it can never abort a batch;
      dhandler_ok / dhandler_fail — the instance is the Map model: Ok carries map_step's reply and its write
-                       batch applied to the store gives map_step's successor state.
+                       batch applied to the store gives map_step's successor state;
+     data_batch_equiv / data_batch_equiv_replies / data_partition_independent — Determ.Proofs.batch_equiv,
+                       batch_equiv_replies and partition_independent instantiated: NO hypothesis left on the
+                       handlers (a request whose rvalid bit or argument count contradicts its own argument
+                       list — not an entry the node can build — is given no handler: `consistent`).
    Transcribed: node/state_machine.go isValidBatchableWrite, kvbatchOperator.IsBatchable (del with more
    than one key is never batched), rockredis.IsBatchableWrite (set setex del hmset). *)
 From Coq Require Import List NArith ZArith Bool Lia.
@@ -106,6 +111,21 @@ Proof.
   cbn [In] in H. destruct H as [H|[H|[H|[H|[]]]]]; rewrite <- H; auto.
 Qed.
 
+(* isValidBatchableWrite, in the vocabulary of the Map model (key_ok / subkey_ok / value_ok are the
+   model's CheckKey / CheckKeySubKey / MaxValueSize tests); SET with options does not parse here *)
+Definition valid_ttl (ts d : Z) : bool := (0 <? d) && (d <? max_u32 - 1 - sec_of ts).
+Definition valid_batchable (name key : bytes) (rest : list bytes) (ts : Z) : bool :=
+  key_ok key &&
+  (if bytes_eqb name n_set then match rest with [v] => value_ok v | _ => true end
+   else if bytes_eqb name n_setex then
+     match rest with
+     | [d; v] => value_ok v && match parse_int64 d with Some z => valid_ttl ts z | None => false end
+     | _ => false
+     end
+   else if bytes_eqb name n_hmset then
+     match pairs_of rest with Some fvs => negb (too_many fvs) && hmset_args_ok fvs | None => false end
+   else true).
+
 Section Inst.
   Variable compact : bool.
   Variable now : Z.
@@ -113,7 +133,14 @@ Section Inst.
   Variable rest_of : DM.req -> list bytes.
 
   Definition args_of (q : DM.req) : list bytes := DM.rname q :: DM.rpk q :: rest_of q.
-  Definition cmd_of (q : DM.req) : option cmd := parse_cmd (args_of q).
+  (* the two fields of a request that repeat information of its argument list agree with it: rvalid is
+     isValidBatchableWrite of the arguments (only the direction that matters), and a request of at most
+     two words has no argument after its key.  The node computes both from the arguments; a request value
+     that contradicts itself is not an entry the node can build and is given no handler here. *)
+  Definition consistent (q : DM.req) : bool :=
+    (if DM.rvalid q then valid_batchable (DM.rname q) (DM.rpk q) (rest_of q) (ts_of q) else true) &&
+    (if (DM.rnargs q <=? 2)%N then match rest_of q with [] => true | _ => false end else true).
+  Definition cmd_of (q : DM.req) : option cmd := if consistent q then parse_cmd (args_of q) else None.
 
   Definition dhandler (q : DM.req) (s : mstate) : DM.outcome wop reply :=
     match cmd_of q with
@@ -124,10 +151,6 @@ Section Inst.
     end.
 
   Definition commit (s : mstate) (ws : list wop) : mstate := DM.commit_ws mstate wop apply_w s ws.
-
-  (* kvbatchOperator.IsBatchable's name test: a batchable name, and DEL only with one key *)
-  Definition batch_cand (q : DM.req) : bool :=
-    DM.name_batchable q && negb (DM.bytes_eqb (DM.rname q) DC.del_name && (2 <? DM.rnargs q)%N).
 
   (* ---------- the instance is the Map model ---------- *)
   Lemma alook_aput_eq {V} (d : V) k v m : alook d k (aput bytes_eqb k v m) = v.
@@ -172,19 +195,18 @@ Section Inst.
   Qed.
 
   (* ---------- a batchable command parses to a batchable shape on its own primary key ---------- *)
-  Hypothesis nargs_ok : forall q, DM.rnargs q = N.of_nat (2 + length (rest_of q)).
-
-  Lemma cand_shape q c : batch_cand q = true -> cmd_of q = Some c ->
+  Lemma cand_shape q c : DM.batch_cand q = true -> cmd_of q = Some c ->
     (batch_shape c = true /\ pk_of c = DM.rpk q) \/ c = CK KCinvalid.
   Proof.
-    unfold batch_cand, cmd_of, args_of. intros B C. apply andb_true_iff in B. destruct B as [NB ND].
+    unfold DM.batch_cand, DM.multi_del, cmd_of, args_of. intros B C. apply andb_true_iff in B. destruct B as [NB ND].
+    destruct (consistent q) eqn:CO; [|discriminate]. unfold consistent in CO. apply andb_true_iff in CO. destruct CO as [_ CN].
     destruct (batchable_names q NB) as [E|[E|[E|E]]]; rewrite E in *.
     - (* del: exactly one key *)
       rewrite parse_del in C. injection C as <-.
       assert (rest_of q = []) as ->.
-      { unfold n_del, DC.del_name in ND. cbn [DM.bytes_eqb N.eqb Pos.eqb andb] in ND. rewrite (nargs_ok q) in ND.
-        destruct (rest_of q); [reflexivity|]. cbn [length] in ND. exfalso.
-        apply negb_true_iff in ND. apply N.ltb_ge in ND. lia. }
+      { unfold n_del, DC.del_name in ND. cbn [DM.bytes_eqb N.eqb Pos.eqb andb] in ND.
+        apply negb_true_iff in ND. apply N.ltb_ge in ND. apply N.leb_le in ND. rewrite ND in CN.
+        destruct (rest_of q); [reflexivity|discriminate]. }
       left. split; reflexivity.
     - rewrite parse_hmset in C. destruct (pairs_of (rest_of q)); [|discriminate]. injection C as <-. left. split; reflexivity.
     - rewrite parse_set in C. destruct (rest_of q) as [|v [|w r]]; try discriminate. injection C as <-. left. split; reflexivity.
@@ -259,7 +281,7 @@ Section Inst.
 
   (* ---------- (H1) isolation of the members of a batch ---------- *)
   Theorem data_isolation q q' s' ws r s :
-    batch_cand q = true -> batch_cand q' = true -> DM.rpk q <> DM.rpk q' ->
+    DM.batch_cand q = true -> DM.batch_cand q' = true -> DM.rpk q <> DM.rpk q' ->
     dhandler q' s' = DM.Ok ws r -> dhandler q (commit s ws) = dhandler q s.
   Proof.
     intros B B' NE O.
@@ -274,22 +296,6 @@ Section Inst.
   Qed.
 
   (* ---------- (H2) a valid batchable command never fails ---------- *)
-  (* isValidBatchableWrite, in the vocabulary of the Map model (key_ok / subkey_ok / value_ok are the
-     model's CheckKey / CheckKeySubKey / MaxValueSize tests); SET with options does not parse here *)
-  Definition valid_ttl (ts d : Z) : bool := (0 <? d) && (d <? max_u32 - 1 - sec_of ts).
-  Definition valid_batchable (name key : bytes) (rest : list bytes) (ts : Z) : bool :=
-    key_ok key &&
-    (if bytes_eqb name n_set then match rest with [v] => value_ok v | _ => true end
-     else if bytes_eqb name n_setex then
-       match rest with
-       | [d; v] => value_ok v && match parse_int64 d with Some z => valid_ttl ts z | None => false end
-       | _ => false
-       end
-     else if bytes_eqb name n_hmset then
-       match pairs_of rest with Some fvs => negb (too_many fvs) && hmset_args_ok fvs | None => false end
-     else true).
-  Hypothesis rvalid_ok : forall q, DM.rvalid q = true ->
-    valid_batchable (DM.rname q) (DM.rpk q) (rest_of q) (ts_of q) = true.
 
   Lemma xrenew_reply {R} live forget ts (f : R -> R * reply) x :
     (forall r, snd (f r) = snd (f (x_r x))) -> snd (xrenew live forget compact ts f x) = snd (f (x_r x)).
@@ -300,14 +306,16 @@ Section Inst.
     - destruct (f (x_r x)) as [r' rep]. reflexivity.
   Qed.
 
-  Theorem data_no_abort q s e : batch_cand q = true -> DM.rvalid q = true -> dhandler q s <> DM.Fail e true.
+  Theorem data_no_abort q s e : DM.batch_cand q = true -> DM.rvalid q = true -> dhandler q s <> DM.Fail e true.
   Proof.
-    intros B V. pose proof (rvalid_ok q V) as Val. unfold valid_batchable in Val.
-    apply andb_true_iff in Val. destruct Val as [K Val].
+    intros B V.
     destruct (cmd_of q) as [c|] eqn:C; [|unfold dhandler; rewrite C; discriminate].
     rewrite (dhandler_outcome q c s C). unfold outcome_of.
-    unfold batch_cand in B. apply andb_true_iff in B. destruct B as [NB ND].
+    unfold DM.batch_cand in B. apply andb_true_iff in B. destruct B as [NB ND].
     unfold cmd_of, args_of in C.
+    destruct (consistent q) eqn:CO; [|discriminate]. unfold consistent in CO. apply andb_true_iff in CO. destruct CO as [Val _].
+    rewrite V in Val. unfold valid_batchable in Val.
+    apply andb_true_iff in Val. destruct Val as [K Val].
     assert (NF : is_fail (snd (map_step compact now (ts_of q) c s)) = false);
       [|destruct (map_step compact now (ts_of q) c s) as [s1 r1]; cbn [snd] in NF; rewrite NF; discriminate].
     destruct (batchable_names q NB) as [E|[E|[E|E]]]; rewrite E in *.
@@ -344,4 +352,71 @@ Section Inst.
       assert (9223372036854775807 <? sec_of (ts_of q) + z = false) as -> by (unfold max_u32 in *; lia).
       destruct compact; reflexivity.
   Qed.
+
+  (* ---------- C07's theorems for the concrete handlers ---------- *)
+  Variable other_exec : DM.req -> mstate -> mstate * reply.     (* custom / schema requests: arbitrary *)
+  Variable parse_err : DM.req -> reply.
+  Variable conflicts : DM.req -> mstate -> bool.
+
+  Definition batched := DM.apply_batched mstate wop reply apply_w dhandler other_exec parse_err RErr RNil conflicts.
+  Definition alone := DM.seq_run mstate wop reply apply_w dhandler other_exec parse_err RErr.
+
+  (* any partition of a log into batch-operator lifetimes and ApplyRaftRequest calls = one request at a time:
+     same final Map state, same replies (as a multiset of (request id, reply)); a Go panic (a one-word
+     command) happens in both or in neither *)
+  Theorem data_batch_equiv rp so p s :
+    DP.same_result mstate reply (batched rp false so s p) (alone s (DM.flatten p)).
+  Proof.
+    apply (DP.batch_equiv mstate wop reply apply_w dhandler other_exec parse_err RErr RNil conflicts).
+    - intros q q' s' ws r s0. apply data_isolation.
+    - intros q s0 e. apply data_no_abort.
+  Qed.
+
+  (* ... and every client gets the reply its request gets when applied alone *)
+  Theorem data_batch_equiv_replies rp so p s s1 o1 e1 s2 o2 :
+    NoDup (map DM.rid (DM.flatten p)) ->
+    batched rp false so s p = Some (s1, o1, e1) -> alone s (DM.flatten p) = Some (s2, o2) ->
+    s1 = s2 /\ forall id, DM.reply_of reply id o1 = DM.reply_of reply id o2.
+  Proof.
+    apply (DP.batch_equiv_replies mstate wop reply apply_w dhandler other_exec parse_err RErr RNil conflicts).
+    - intros q q' s' ws r s0. apply data_isolation.
+    - intros q s0 e. apply data_no_abort.
+  Qed.
+
+  (* two replicas that group the same log differently (live apply, replay after a restart) end with the
+     same Map state and the same replies *)
+  Theorem data_partition_independent rp1 rp2 so p1 p2 s : DM.flatten p1 = DM.flatten p2 ->
+    DP.same_result2 mstate reply (batched rp1 false so s p1) (batched rp2 false so s p2).
+  Proof.
+    apply (DP.partition_independent mstate wop reply apply_w dhandler other_exec parse_err RErr RNil conflicts).
+    - intros q q' s' ws r s0. apply data_isolation.
+    - intros q s0 e. apply data_no_abort.
+  Qed.
 End Inst.
+
+(* ---------- non-vacuity: a batch really forms, over the real handlers ---------- *)
+(* SET t:a, SET t:b, HMSET t:a f v, SET t:a delivered in one ApplyRaftRequest call: the first three join
+   one batch (different primary keys, or another type's record of the same key cuts it: dupCheckMap is
+   by key), the fourth finds t:a in dupCheckMap, commits the batch and runs alone; state and replies are
+   those of the one-at-a-time run, and the strings / the hash are in the resulting Map state *)
+Local Open Scope N_scope.
+Definition ex_rest (q : DM.req) : list bytes := if DM.rnargs q <=? 2 then [] else if DM.rnargs q <=? 3 then [[DM.rbody q]] else [[102]; [DM.rbody q]].
+Definition ex_ts (q : DM.req) : Z := Z.of_N (DM.rid q) + 1.
+Definition ex_log : list DM.req :=
+  [ DM.mkReq 0 DM.KRedis n_set [116;58;97] 3 49 true;
+    DM.mkReq 1 DM.KRedis n_set [116;58;98] 3 50 true;
+    DM.mkReq 2 DM.KRedis n_hmset [116;58;99] 4 51 true;
+    DM.mkReq 3 DM.KRedis n_set [116;58;97] 3 52 true ].
+Example data_ex_batch :
+  match batched true 0 ex_ts ex_rest (fun _ s => (s, RNil)) (fun _ => RErr) (fun _ _ => false) false false false m_init
+                [[DM.mkCall false ex_log]] with
+  | Some (s, o, evs) =>
+      evs = [DM.EQ true; DM.EB; DM.EK; DM.ER; DM.EQ true; DM.EK; DM.ER; DM.EQ true; DM.EK; DM.ER;
+             DM.EQ false; DM.EC true; DM.EC false; DM.ESep]
+      /\ o = [(0, RInt 1); (1, RInt 1); (2, RNil); (3, RInt 1)]
+      /\ alone true 0 ex_ts ex_rest (fun _ s => (s, RNil)) (fun _ => RErr) m_init ex_log = Some (s, o)
+      /\ MapK.kquery true 0 (KQmget [[116;58;97]; [116;58;98]]) (m_kv s) = RArr [RBulk [52]; RBulk [50]]
+      /\ snd (map_step true 0 9 (QHget [116;58;99] [102]) s) = RBulk [51]
+  | None => False
+  end.
+Proof. vm_compute. repeat split. Qed.
